@@ -16,7 +16,8 @@ Search: on the implementation alone — Verify(Sign) == OK, signature == the sta
 import os, sys, importlib
 import vcommon
 
-PROPS = ["Bee2V/C02/Props.lean", "Bee2V/C02/PropsKeyt.lean", "Bee2V/C02/PropsIbs.lean", "Bee2V/C02/PropsBelt.lean", "Bee2V/C02/Toy.lean"]
+PROPS = ["Bee2V/C02/Props.lean", "Bee2V/C02/PropsKeyt.lean", "Bee2V/C02/PropsIbs.lean", "Bee2V/C02/PropsBelt.lean", "Bee2V/C02/PropsNonce.lean",
+         "Bee2V/C02/PropsC06.lean", "Bee2V/C02/Toy.lean"]
 TARGETS = [p[:-5].replace("/", ".") for p in PROPS]
 CORPUS = os.path.join(vcommon.VERIF, "gen", "c02_corpus.txt")
 OK, BAD_INPUT, BAD_OID, BAD_RNG, BAD_PARAMS, BAD_PRIVKEY, BAD_PUBKEY, BAD_SHAREDKEY, BAD_SIG, BAD_KEYTOKEN = \
@@ -156,11 +157,11 @@ class Gen:
     def rscalar(self, cv):
         return self.rng.randrange(1, cv.q)
 
-    def bits(self, cv, nbits, quick_n):
+    def bits(self, cv, nbits, quick_n, sweep=False):
         """positions of single-bit alterations: all in the thorough tier on l = 128 (a dense sample on l = 192, 256:
         the code is generic in l and the model costs 0.1-0.3 s per verification there), a sample (always incl. the
         first and the last bit) in the quick tier"""
-        if self.thorough or nbits <= quick_n:
+        if self.thorough or (self.tt and sweep) or nbits <= quick_n:
             return list(range(nbits))
         if self.tt:
             quick_n = min(nbits, 4 * quick_n)
@@ -389,13 +390,13 @@ class Gen:
                 return self.sig_cases(cv, m, sig, add, 1)
             finally:
                 self.thorough, self.tt = True, tt
-        for i in self.bits(cv, 12 * no, self.w(cv, 24, 10, 8)):
+        for i in self.bits(cv, 12 * no, self.w(cv, 24, 10, 8), True):
             v(oid, H, flip(sig, i), Q, "bit:sig")
-        for i in self.bits(cv, 8 * no, self.w(cv, 12, 5, 4)):
+        for i in self.bits(cv, 8 * no, self.w(cv, 12, 5, 4), True):
             v(oid, flip(H, i), sig, Q, "bit:hash")
-        for i in self.bits(cv, 16 * no, self.w(cv, 12, 6, 6)):
+        for i in self.bits(cv, 16 * no, self.w(cv, 12, 6, 6), True):
             v(oid, H, sig, flip(Q, i), "bit:pub")
-        for i in self.bits(cv, 8 * len(oid), self.w(cv, 8, 4, 3)):
+        for i in self.bits(cv, 8 * len(oid), self.w(cv, 8, 4, 3), True):
             v(flip(oid, i), H, sig, Q, "bit:oid")
         for lab, Qb in self.pubs(cv, Q)[1:]:
             v(oid, H, sig, Qb, "pub:" + lab)
@@ -436,7 +437,7 @@ class Gen:
             if 0 < cut <= len(tok):
                 u(tok[:-cut], hdr, d, "truncated")
         u(tok + b"\x00", hdr, d, "extended")
-        for i in self.bits(cv, 8 * len(tok), self.w(cv, 10, 4, 3)) if not self.thorough else self.bits(cv, 8 * len(tok), 0) if m.get("first") else sorted(self.rng.sample(range(8 * len(tok)), 24)):
+        for i in self.bits(cv, 8 * len(tok), self.w(cv, 10, 4, 3), m.get("first", False)) if not self.thorough else self.bits(cv, 8 * len(tok), 0) if m.get("first") else sorted(self.rng.sample(range(8 * len(tok)), 24)):
             u(flip(tok, i), hdr, d, "bit:token")
         x = int.from_bytes(tok[:no], "little")
         for lab, xx in [("x=p", cv.p), ("x+p", x + cv.p), ("x=max", cv.W - 1), ("x=0", 0)]:
@@ -513,11 +514,11 @@ class Gen:
             full = n == 1
             if self.thorough and not full:
                 pass
-            for i in self.bits(cv, 12 * no, self.w(cv, 10, 4, 3) if full else 1) if not (self.thorough and not full) else [self.rng.randrange(12 * no) for _ in range(6)]:
+            for i in self.bits(cv, 12 * no, self.w(cv, 10, 4, 3) if full else 1, full) if not (self.thorough and not full) else [self.rng.randrange(12 * no) for _ in range(6)]:
                 v(oid, idH, H, flip(isig, i), R, Q, "bit:idsig")
-            nb = lambda tot: (self.bits(cv, tot, self.w(cv, 5, 2, 2) if full else 1) if not (self.thorough and not full)
+            nb = lambda tot, sw=False: (self.bits(cv, tot, self.w(cv, 5, 2, 2) if full else 1, sw and full) if not (self.thorough and not full)
                               else [self.rng.randrange(tot) for _ in range(4)])
-            for i in nb(8 * no):
+            for i in nb(8 * no, True):
                 v(oid, idH, flip(H, i), isig, R, Q, "bit:hash")
             for i in nb(8 * no):
                 v(oid, flip(idH, i), H, isig, R, Q, "bit:idhash")
@@ -536,7 +537,8 @@ class Gen:
             # the extraction itself under alterations
             sig = m["sig"]
             for i in [self.rng.randrange(12 * no) for _ in range(4 if full else 1)]:
-                add("idext %d %s %s %s %s" % (ci, hx(oid), hx(idH), hx(flip(sig, i)), hx(Q)), kind="idext-alt", cv=cv, expect=BAD_SIG)
+                add("idext %d %s %s %s %s" % (ci, hx(oid), hx(idH), hx(flip(sig, i)), hx(Q)), kind="idext-alt", cv=cv,
+                    vargs=(oid, idH, flip(sig, i), Q))      # decided by the equations (nonce +-1: s1 -/+ 2 also verifies)
             add("idext %d %s %s %s %s" % (ci, hx(oid), hx(flip(idH, self.rng.randrange(8 * no))), hx(sig), hx(Q)), kind="idext-alt", cv=cv, expect=BAD_SIG)
             add("idext %d %s %s %s %s" % (ci, hx(oid), hx(idH), hx(sig), hx(flip(Q, self.rng.randrange(16 * no)))), kind="idext-alt", cv=cv, expect=BAD_PUBKEY)
             add("idext %d %s %s %s %s" % (ci, hx(oid), hx(idH), hx(sig), hx(bytes(2 * no))), kind="idext-alt", cv=cv, expect=BAD_PUBKEY)
@@ -587,6 +589,29 @@ def py_verify(cv, hashf, oid, H, sig, pub):
         return BAD_SIG
     t = hashf(oid + cv.n2b(R[0]) + H)[: no // 2]
     return OK if t == sig[: no // 2] else BAD_SIG
+
+
+def py_idverify(cv, hashf, oid, idH, H, isig, idpub, pub):
+    """alg. B.2.5 + validation of both public keys, recomputed independently"""
+    if not oid_ok(oid):
+        return BAD_OID
+    no, q, l = cv.no, cv.q, cv.l
+    pts = []
+    for k in (idpub, pub):
+        x, y = int.from_bytes(k[:no], "little"), int.from_bytes(k[no:], "little")
+        if not cv.on(x, y):
+            return BAD_PUBKEY
+        pts.append((x, y))
+    R, Q = pts
+    s0, s1 = int.from_bytes(isig[: no // 2], "little"), int.from_bytes(isig[no // 2:], "little")
+    if s1 >= q:
+        return BAD_SIG
+    u = s0 + (1 << l)
+    t = int.from_bytes(hashf(oid + idpub[:no] + idH)[: no // 2], "little") + (1 << l)
+    V = cv.add(cv.add(cv.mul((s1 + int.from_bytes(H, "little")) % q, cv.G), cv.mul(u, R)), cv.mul((-t * u) % q, Q))
+    if V is None:
+        return BAD_SIG
+    return OK if hashf(oid + cv.n2b(V[0]) + idH + H)[: no // 2] == isig[: no // 2] else BAD_SIG
 
 
 def oid_ok(der):
@@ -708,9 +733,15 @@ class Search:
                     self.report("unwrap:" + m["lab"], op, o, "0 " + hx(m["key"]), "Unwrap(Wrap(key)) != key")
                 elif not acc and w[0] == "0":
                     self.report("unwrap:" + m["lab"], op, o, "an error code", "altered token / header / private key accepted")
+            elif k == "idext-alt" and "vargs" in m:
+                want = py_verify(cv, self.hashf, *m["vargs"])
+                if int(w[0]) != want:
+                    self.report("idext:bit:sig", op, o, str(want), "bignIdExtract disagrees with the standard's verification")
             elif k == "idvfy":
                 want_ok = m["lab"] == "genuine"
-                if (w[0] == "0") != want_ok:
+                # an alteration may legitimately verify (e.g. nonce k = q-1 or 1: s1 -/+ 2 is the signature for the
+                # nonce -k, which has the same x-coordinate): the equations of alg. B.2.5 decide
+                if (w[0] == "0") != want_ok and int(w[0]) != py_idverify(cv, self.hashf, *m["args"]):
                     self.report("idvfy:" + m["lab"], op, o, "0" if want_ok else "an error code",
                                 "identity signature: genuine rejected or altered input accepted")
         for key, sides in dh.items():
@@ -728,6 +759,8 @@ def diff_par(ctx, exe, lines, label, nproc=6):
         summ = [l for l in msg if "ERROR" in l or "SUMMARY" in l or "Assertion" in l or "runtime error" in l][:3]
         c_out = c_out[:k] + ["CRASH(rc=%d): %s" % (rc, " | ".join(summ) or msg[-1][:200])]
         lines = lines[:k + 1]
+    if ctx.tier == "thorough":
+        nproc = max(nproc, min(12, vcommon.NPROC - 2))
     n = max(1, min(nproc, len(lines) // 8))
     chunks = [lines[i::n] for i in range(n)]
     with cf.ThreadPoolExecutor(n) as ex:
